@@ -15,6 +15,7 @@ import hashlib, hmac as _hmac, importlib.util, itertools, sys, types, logging
 logging.getLogger("pycoin.key.bip32").disabled = True      # the 'lotto ticket' message of the forced-HMAC scenarios
 
 PROP = "C09"
+EXTRA_PROPS = ["C09compose"]   # composition theorems (see DESIGN.md section 0)
 DRIVER = "C09"
 INTERACTIVE = True
 RULE = ("correspondence: one driver line per scenario (a history of subkey / subkey_for_path / subkeys calls on one root, or one "
